@@ -13,7 +13,7 @@ class Broken(Exception):
 
 class Def:
     __slots__ = ("id", "name", "kind", "krate", "local", "file", "line", "params", "pub",
-                 "container", "item_name", "root", "is_bin")
+                 "container", "item_name", "root", "is_bin", "captures")
 
     def __init__(self, o):
         self.id = o["id"]
@@ -29,6 +29,7 @@ class Def:
         self.item_name = o.get("item_name")
         self.root = None
         self.is_bin = False
+        self.captures = o.get("captures")
 
     def __repr__(self):
         return f"<Def {self.name}>"
